@@ -276,7 +276,9 @@ func TestVerifC02Func(t *testing.T) {
 	} else {
 		alphas = append(alphas, alpha{"large-n3", 3, []int64{1, 1<<40 + 1, 1<<53 + 1, 1 << 61}, []int64{0, 1<<40 + 1}, []int64{0}, []int64{1, 3, 1<<40 + 1}, bigT, 1})
 	}
-	sort.SliceStable(alphas, func(i, j int) bool { return strings.HasPrefix(alphas[i].name, "large") && !strings.HasPrefix(alphas[j].name, "large") })
+	sort.SliceStable(alphas, func(i, j int) bool {
+		return strings.HasPrefix(alphas[i].name, "large") && !strings.HasPrefix(alphas[j].name, "large")
+	})
 	for _, a := range alphas {
 		res := mc.NewResult("C02", "func-"+a.name, "enumeration")
 		ds := mc.NewDistinctSet()
